@@ -124,10 +124,15 @@ class CachedTimeline(Timeline[IvlOut]):
 
     def _fill_gap(self, gap_start: int, gap_end: int) -> None:
         """Fetch gap from source and add to cache."""
-        # Fetch from source, clipping to gap bounds
+        # Read the whole answer first: a source that fails part-way (a paginated
+        # backend, say) must not leave a partial gap in the sink, where a retry
+        # would store the same events a second time
+        fetched = list(self.source.fetch(gap_start, gap_end))
+
+        # Clip to gap bounds
         # This ensures intervals don't extend beyond the covered range
         # and enables proper stitching at boundaries
-        for ivl in self.source.fetch(gap_start, gap_end):
+        for ivl in fetched:
             # Validate key fields on first interval (lazy validation)
             if not self._key_validated and self._key_fields is not None:
                 self._get_key(ivl)  # Raises TypeError if missing
